@@ -2,8 +2,8 @@
   PygModel.TreeTable — model of `tree_to_table(tree, pattern)` (src/pyg_base/_tree.py:13-82, `leaf = False`)
   and `table_to_tree(None, pattern, rows)` (src/pyg_base/_table_to_tree.py:7-39).  A pattern is a list of
   segments: a literal key or a wildcard `%name`.  A row is an insertion-ordered dict name ↦ value.
-  SAMPLED ONLY (driver ops `totable` / `totree`, C15 correspondence cases): the inverse law
-  `table_tree_inverse` is not proved in Lean.
+  Tied to the code by correspondence (driver ops `totable` / `totree`, C15 cases); the inverse law is proved in
+  PygProofs/Props/C15.lean (`table_tree_inverse`, `tree_table_inverse`).
 -/
 import PygModel.Tree
 
